@@ -17,7 +17,7 @@ import (
 // evaluation does not leak into a sibling.
 
 func init() {
-	register("C01", "Decides only the plumbing clauses of the context-passing semantics, from the shape of the code: (N1) pipeOperator evaluates the right side on the left side's results in a context derived from its own, and returns the right side's results; (N2) unionOperator evaluates both sides in its own context and emits the left results before the right results; (N3) doCrossFunc / resultsForRHS iterate the left results in the outer loop and the right results in the inner loop, front to back, and call the calculation with (left, right) in that order, appending at the back; (N4) every operation type the lexer emits or post-processing inserts has a handler in the operator table; (N5) no result list is built or walked back to front outside the two update operators that do so deliberately (no PushFront / InsertBefore / Move*, Back()/Prev() only there); (N6) the Context returned by one evaluation is not the context of another (scoping); (N7) list-mutating calls act only on lists the function created or received as out-parameters, never on the MatchingNodes of its context or of an evaluation result; (N8) only path traversal and string == call the glob key matcher. Does NOT decide what any operator computes, nor when an error is due: those clauses quantify over runtime values.", runC01)
+	register("C01", "Decides only the plumbing clauses of the context-passing semantics, from the shape of the code: (N1) pipeOperator evaluates the right side on the left side's results in a context derived from its own, and returns the right side's results; (N2) unionOperator evaluates both sides in its own context and emits the left results before the right results; (N3) doCrossFunc / resultsForRHS iterate the left results in the outer loop and the right results in the inner loop, front to back, and call the calculation with (left, right) in that order, appending at the back; (N4) every operation type the lexer emits or post-processing inserts has a handler in the operator table; (N5) no result list is built or walked back to front outside the two update operators that do so deliberately (no PushFront / InsertBefore / Move*, Back()/Prev() only there); (N6) the Context returned by one evaluation is not the context of another (scoping); (N7) list-mutating calls act only on lists the function created or received as out-parameters, never on the MatchingNodes of its context or of an evaluation result; (N8) only path traversal and string == call the glob key matcher. (N11) traversePathOperator hands on every node the traversal returns. Does NOT decide what any operator computes, nor when an error is due: those clauses quantify over runtime values.", runC01)
 }
 
 func runC01(c *Ctx) {
